@@ -11,3 +11,7 @@ import VProps.C09
 #print axioms V.C09.unrelated_state_added
 #print axioms V.C09.add_auth_events_sufficient
 #print axioms V.C09.ofEvents_sameRoom
+#print axioms V.C09.allowedFresh_eq_noValid
+#print axioms V.C09.check_eq_allowed
+#print axioms V.C09.reused_checker_eq_allowed
+#print axioms V.C09.sameEvent_eq
